@@ -334,6 +334,8 @@ func main() {
 		Property:   "C01",
 		Level:      "exploration",
 		Exhaustive: true,
+		// the largest specs of the thorough universe take minutes under the order exploration; the batch slice is 2/5 of this
+		TaskTimeout: 900 * time.Second,
 		Batches: func(tier string) []any {
 			var out []any
 			for i := range universe(tier) {
